@@ -185,6 +185,110 @@ def report_reach(*a):
     return LAST[3] is None and len(LAST[4]) == 3 and 'two-failing-subtests' in LAST[0] and 'unexpected-success' in LAST[0]
 
 
+# ------------------------------------------------------------------ doctest cases
+
+import doctest  # noqa: E402
+
+doctest.DocTestCase.__ch_deep_realize__ = lambda self, memo: self
+doctest.DocTestCase.__deepcopy__ = lambda self, memo: self
+DOC_PASS, DOC_WRONG, DOC_RAISE, DOC_NASTY = range(4)
+DOC_KINDS = ['doctest-pass', 'doctest-wrong-output', 'doctest-example-raises', 'doctest-output-with-NUL-and-]]>']
+DOC_TEXT = {
+    DOC_PASS: '>>> 1 + 1\n2\n',
+    DOC_WRONG: '>>> 1 + 1\n3\n',
+    DOC_RAISE: '>>> {}["<missing&key>"]\n0\n',
+    DOC_NASTY: '>>> print("a" + chr(0) + "]]>" + chr(0xFFFF) + chr(0xD800) + "<b>&")\nx\n',
+}
+
+
+def mk_doc_world(kd0, kd1, kf, name_dots):
+    """Two DocTestCases taken from the __test__ table of an in-memory module
+    (names w.docmod.__test__.alpha / .beta) and one DocFileCase built the way
+    doctest.DocFileTest builds it (parser.get_doctest over a text), named after
+    a file below a directory that shares only the root with the cwd."""
+    m = types.ModuleType('w.docmod')
+    m.__file__ = '/w/docmod.py'
+    m.__test__ = {'alpha': 'alpha\n\n' + DOC_TEXT[kd0], 'beta': 'beta\n\n' + DOC_TEXT[kd1]}     # distinct objects: the finder skips an object it has seen
+    suite = doctest.DocTestSuite(m)
+    docs = sorted((t for t in suite), key=lambda t: t._dt_test.name)
+    fname = 'sample.v1.txt' if name_dots else 'sample.txt'
+    dt = doctest.DocTestParser().get_doctest(DOC_TEXT[kf], {}, fname, '/w/pkg/tests/' + fname, 0)
+    fc = doctest.DocFileCase(dt)
+    return docs + [fc]
+
+
+def doccases(kd0, kd1, kf, ku, rep2, buf, name_dots):
+    """XML reports of a layer that mixes doctest cases (module doctests, a doc
+    file case) with a unittest case."""
+    global LAST
+    kd0, kd1, kf = ci(kd0, 0, 3), ci(kd1, 0, 3), ci(kf, 0, 3)
+    ku = pick([W.PASS, W.FAIL, W.ERROR], ku)
+    rep2, buf, name_dots = cb(rep2), cb(buf), cb(name_dots)
+    with untraced():
+        tests = mk_doc_world(kd0, kd1, kf, name_dots) + [mk('t0', ku)]
+    R.TestResult._exc_info_to_string = lambda self, err, test: 'traceback'
+    o = run_world(tests, rep2, buf)
+    o.output.writeXMLReports()
+    with untraced():
+        why = doc_oracle((kd0, kd1, kf), ku, rep2, 'sample.v1.txt' if name_dots else 'sample.txt')
+    LAST = (tuple(DOC_KINDS[k] for k in (kd0, kd1, kf)), W.KIND_NAMES[ku], rep2, buf, why, tuple(sorted(FILES)))
+    return why is None
+
+
+def doc_oracle(kds, ku, rep2, fname):
+    rep = 2 if rep2 else 1
+    cases = []          # (report file, classname, name, n failure children, n error children)
+    for f, text in FILES.items():
+        base = f.rsplit('/testreports/', 1)
+        if len(base) != 2 or '/' in base[1] or not base[1].endswith('.xml'):
+            return 'report written outside the report directory: %r' % f
+        try:
+            root = RealET.fromstring(text)
+        except RealET.ParseError as e:
+            return 'report %s is not well-formed: %s' % (f, e)
+        cs = root.findall('testcase')
+        if int(root.get('tests')) != len(cs):
+            return '%s: tests=%s but %d testcase elements' % (f, root.get('tests'), len(cs))
+        if int(root.get('errors')) != len(root.findall('testcase/error')):
+            return '%s: errors=%s but %d error elements' % (f, root.get('errors'), len(root.findall('testcase/error')))
+        if int(root.get('failures')) != len(root.findall('testcase/failure')):
+            return '%s: failures=%s but %d failure elements' % (f, root.get('failures'), len(root.findall('testcase/failure')))
+        for c in cs:
+            cases.append((f, c.get('classname'), c.get('name'), len(c.findall('failure')), len(c.findall('error'))))
+    # every doctest: once per iteration, under a name that identifies it, with a failure child iff it failed
+    want = [('w.docmod.__test__.alpha', kds[0], lambda cn, nm: cn + '.' + nm == 'w.docmod.__test__.alpha'),
+            ('w.docmod.__test__.beta', kds[1], lambda cn, nm: cn + '.' + nm == 'w.docmod.__test__.beta'),
+            (fname, kds[2], lambda cn, nm: nm == fname)]
+    used = set()
+    for label, k, match in want:
+        mine = [i for i, c in enumerate(cases) if match(c[1], c[2])]
+        if len(mine) != rep:
+            return 'doctest %s (%s): %d testcase elements carry its name, ran %d time(s): %r' % (label, DOC_KINDS[k], len(mine), rep, [cases[i][:3] for i in mine])
+        for i in mine:
+            used.add(i)
+            nf, ne = cases[i][3], cases[i][4]
+            if k == DOC_PASS and (nf or ne):
+                return 'passing doctest %s reported with a failure/error child' % label
+            if k != DOC_PASS and nf + ne != 1:
+                return 'failing doctest %s (%s): %d failure and %d error children' % (label, DOC_KINDS[k], nf, ne)
+    unit = [i for i, c in enumerate(cases) if c[1] == 'w.T_t0' and c[2] == 'runTest']
+    if len(unit) != rep:
+        return 'unittest case t0: %d testcase elements, ran %d time(s)' % (len(unit), rep)
+    for i in unit:
+        used.add(i)
+        nf, ne = cases[i][3], cases[i][4]
+        if (nf, ne) != ((1, 0) if ku == W.FAIL else (0, 1) if ku == W.ERROR else (0, 0)):
+            return 'unittest case t0 (%s): %d failure and %d error children' % (W.KIND_NAMES[ku], nf, ne)
+    if len(used) != len(cases):
+        return 'testcase elements that belong to no test of the run: %r' % [c[:3] for i, c in enumerate(cases) if i not in used]
+    return None
+
+
+def doccases_reach(*a):
+    doccases(*a)
+    return LAST[4] is None and len(LAST[5]) >= 3 and 'doctest-output-with-NUL-and-]]>' in LAST[0]
+
+
 # ------------------------------------------------------------------ characters
 
 STRINGS = []
@@ -355,7 +459,7 @@ SPEC = {
               'runner.time, runner.gc; unittest.TestResult._exc_info_to_string -> constant'],
     'assumptions': ['ElementTree escapes & < > " correctly and expat decides well-formedness (trusted stdlib)',
                     'the traceback text placed in the report comes from traceback.format_tb of harness frames (ASCII); arbitrary characters are injected through the message and the id'],
-    'outside': ['doctest / manuel cases (DocFileCase naming depends on the file system)', 'injected strings longer than 2 characters (the sanitiser works per character)',
+    'outside': ['manuel cases; doc file cases below the current working directory (their suite name is derived from the cwd)', 'injected strings longer than 2 characters (the sanitiser works per character)',
                 'more than 3 tests'],
     'harnesses': [
         {'name': 'report', 'fn': 'report', 'params': _P, 'call': _C,
@@ -373,5 +477,19 @@ SPEC = {
          'reach': 'chars_reach', 'reach_bounds': {'quick': 'n == 1 and 0 <= i < 3 and j == 0 and where == 0 and kind == 0', 'thorough': 'n == 1 and 0 <= i < 3 and j == 0 and where == 0 and kind == 0'},
          'timeout': {'quick': 300, 'thorough': 1500},
          'fidelity': [dict(n=1, i=0, j=0, where=0, kind=0), dict(n=2, i=32, j=20, where=1, kind=1), dict(n=2, i=10, j=11, where=2, kind=2), dict(n=0, i=0, j=0, where=0, kind=0)]},
+        {'name': 'doccases', 'fn': 'doccases',
+         'params': [('kd0', 'int'), ('kd1', 'int'), ('kf', 'int'), ('ku', 'int'), ('rep2', 'bool'), ('buf', 'bool'), ('name_dots', 'bool')],
+         'call': 'kd0, kd1, kf, ku, rep2, buf, name_dots',
+         'bounds': {'quick': '0 <= kd0 <= 3 and 0 <= kd1 <= 3 and 0 <= kf <= 3 and 0 <= ku <= 2 and kd1 <= 1 and ku <= 1 and not (rep2 and buf) and (not name_dots or (kd0 == 0 and not rep2 and not buf))',
+                    'thorough': '0 <= kd0 <= 3 and 0 <= kd1 <= 3 and 0 <= kf <= 3 and 0 <= ku <= 2'},
+         'slices': {'quick': ['kd0 == %d and kf %% 2 == %d' % (k, m) for k in range(4) for m in range(2)],
+                    'thorough': ['kd0 == %d and kf == %d' % (k, m) for k in range(4) for m in range(4)]},
+         'reach': 'doccases_reach',
+         'reach_bounds': {'quick': 'kd0 == 3 and kd1 == 0 and kf == 1 and ku == 0 and not rep2 and not buf and not name_dots',
+                          'thorough': 'kd0 == 3 and kd1 == 0 and kf == 1 and ku == 0 and not rep2 and not buf and not name_dots'},
+         'timeout': {'quick': 300, 'thorough': 1500},
+         'fidelity': [dict(kd0=0, kd1=0, kf=0, ku=0, rep2=False, buf=False, name_dots=False),
+                      dict(kd0=3, kd1=1, kf=2, ku=1, rep2=True, buf=False, name_dots=False),
+                      dict(kd0=1, kd1=0, kf=3, ku=2, rep2=False, buf=True, name_dots=True)]},
     ],
 }
